@@ -466,7 +466,7 @@ func (m *mon) attackAck() {
 	// pick any packet: pending-ack ones have a real ack, others exercise premature/foreign acks
 	var cands []*pkt.Pkt
 	for _, p := range s.Pkts {
-		if p.DstN != nil && !p.Acked {
+		if p.DstN != nil && (!p.Acked || s.Rng.Intn(3) == 0) {
 			cands = append(cands, p)
 		}
 	}
@@ -500,6 +500,17 @@ func (m *mon) attackAck() {
 	}
 	honest, err := s.AckMsg(p, ack, ph, rel)
 	if err != nil {
+		return
+	}
+	if p.Acked {
+		// the commitment is gone: the very same (once valid) acknowledgement, and variations of it, must be refused now
+		again := *honest
+		m.judgeAck(p, &again, honest, rel, "replay:after-commitment-removed")
+		for i := 0; i < 3; i++ {
+			mut := *honest
+			desc := m.mutateAck(&mut, p)
+			m.judgeAck(p, &mut, honest, rel, "replay+"+desc)
+		}
 		return
 	}
 	n := 4 + s.Rng.Intn(8)
